@@ -3,12 +3,12 @@ from .. import fam_pipeline as fp
 from .. import gen_models as gm
 from .. import oracles as orc
 
-THEOREMS = ["C05.pack4_length", "C05.unpack_pack", "C05.decode_encode8", "C05.encodeAll8", "C05.decode_encode", "C05.decode_encode_wrap", "C05.decodeAll_encodeAll", "C05.encodeAllLE_length", "C05.f16Val_f16Bits", "C17.dq_q_ideal", "C17.cover_ideal", "C17.dq_q_rounded"]
+THEOREMS = ["C05.pack4_length", "C05.unpack_pack", "C05.decode_encode8", "C05.encodeAll8", "C05.decode_encode", "C05.decode_encode_wrap", "C05.decodeAll_encodeAll", "C05.encodeAllLE_length", "C05.f16Val_f16Bits", "C17.dq_q_ideal", "C17.cover_ideal", "C17.dq_q_rounded", "C17.q_in_range", "C17.q_in_range_64", "C17.saturates_high_64"]
 
 
 def run(ctx):
     ctx.rule = ("every rewritten constant of every generated model x recipe (weights of fc/conv/depthwise/transpose-conv/batch-matmul/embedding, constant operands of elementwise ops and concatenations, biases; 4/8/16 bit, symmetric/asymmetric, per-tensor/per-channel, odd element counts) decoded by an independent decoder and compared with the float original; the arithmetic and the whole pipeline are compared bit-exactly with the Lean model; distinct = distinct (model, recipe) pairs")
-    common.proof_side(ctx, THEOREMS, modules=["QProps.C05", "QProps.C05b", "QProps.C17", "QProps.C17b"])
+    common.proof_side(ctx, THEOREMS, modules=["QProps.C05", "QProps.C05b", "QProps.C17", "QProps.C17b", "QProps.C17c"])
     drv = common.Driver()
 
     def per_case(case, res):
